@@ -116,7 +116,8 @@ def sortStrings (l : List String) : List String := (l.toArray.qsort (· < ·)).t
 partial def showTV : Ty → V → String
   | .seq k t, .seq l =>
     let items := l.toList.map (showTV t)
-    let items := match k with | .set => (sortStrings items).eraseDups | .bag => sortStrings items | _ => items
+    -- sets collapse duplicates (only hostile or foreign data has any); an IndexSet keeps first occurrences in order
+    let items := match k with | .set => (sortStrings items).eraseDups | .bag => sortStrings items | .indexSet => items.eraseDups | _ => items
     "(q" ++ String.join (items.map (" " ++ ·)) ++ ")"
   | .map _ k x, .seq l =>
     -- a map keeps the last value inserted for a key; iteration order is not part of the value
